@@ -36,7 +36,8 @@ def _instrument(env, log):
         def random_split(field, s, t, m, _orig=orig_split):
             n0 = party.n_randbelow
             rows = _orig(field, s, t, m)
-            log['splits'].append(dict(pid=party.pid, t=t, m=m, n=len(s), order=field.order, rows=rows,
+            log['splits'].append(dict(pid=party.pid, t=t, m=m, n=len(s), order=field.order, rows=rows, n0=n0, secrets=list(s),
+                                      modulus=field.modulus,
                                       draws=party.n_randbelow - n0, bounds=list(party.randbelow_log[n0:])))
             return rows
         thresha.random_split = random_split
@@ -66,6 +67,23 @@ def h(env):
         env.check(f'split[{k}]:m', sp['m'] == m and len(sp['rows']) == m)
         env.check(f'split[{k}]:draws', sp['draws'] == sp['t'] * sp['n'])
         env.check(f'split[{k}]:bounds', all(b == sp['order'] for b in sp['bounds']))
+        if isinstance(sp['modulus'], int) and sp['draws'] == sp['t'] * sp['n']:
+            # the dealt rows are the values at 1..m of s + c_1 X + ... + c_t X^t with the t fresh draws as coefficients (either order):
+            # full degree t in independent coefficients (a dealing that only uses the sum of the draws has degree 1)
+            p_, tt = sp['modulus'], sp['t']
+            orders = []
+            for rev in (True, False):
+                conj = []
+                for hh in range(sp['n']):
+                    cs = [env.var(f'rb_p{sp["pid"]}_{sp["n0"] + hh * tt + j + 1}') for j in range(tt)]
+                    if rev:
+                        cs = cs[::-1]
+                    s_h = kit.fval(sp['secrets'][hh])
+                    for x in range(1, sp['m'] + 1):
+                        poly = s_h + sum(c * x ** (j + 1) for j, c in enumerate(cs))
+                        conj.append((kit.fval(sp['rows'][x - 1][hh]) - poly) % p_ == 0)
+                orders.append(env.all(conj))
+            env.check(f'split[{k}]:rows_are_a_degree_t_polynomial_in_the_fresh_coefficients', env.any(orders))
     used = set()
     nframes = 0
     for s in log['sends']:
